@@ -10,6 +10,7 @@
 (*     dom  = sequence of lower-case labels (e.g. <<"sub","dot","test">>)  *)
 (*     noat = TRUE for an address without @                                *)
 (*     long = TRUE if the address exceeds the server's length limit        *)
+(*     edge = TRUE for an IP-literal address one byte under the limit       *)
 (*     lit  = TRUE if the domain is an IP literal of one of this host's    *)
 (*            interfaces (then dom = <<>>)                                 *)
 (* Configuration:                                                          *)
@@ -33,6 +34,12 @@ HostListed(d, exact, suffix) == d \in exact \/ \E s \in suffix : IsSuffix(s, d) 
 
 \* the address after replacing a local IP-literal domain by the configured name
 Subst(a, cfg) == IF a.lit /\ cfg.lip # <<>> THEN [a EXCEPT !.dom = cfg.lip, !.lit = FALSE] ELSE a
+\* the length limit applies to the address AFTER that replacement: `long` = over the limit as written (and after any
+\* replacement); `edge` = an IP-literal address written with exactly LIMIT - 1 bytes, i.e. just under the limit as written
+\* and over it as soon as the configured name is longer than the 11 bytes of "[127.0.0.1]"
+RECURSIVE NameLen(_)
+NameLen(d) == IF d = <<>> THEN 0 ELSE Len(Head(d)) + (IF Len(d) > 1 THEN 1 ELSE 0) + NameLen(Tail(d))
+TooLong(a, cfg) == a.long \/ (a.edge /\ a.lit /\ cfg.lip # <<>> /\ NameLen(cfg.lip) > 11)
 Allowed(a, cfg) ==
   \/ ~cfg.rh                                         \* no rcpthosts file: everything is accepted
   \/ a.noat                                          \* addresses without @ are allowed
@@ -46,19 +53,19 @@ Stored(a, cfg) == [a |-> Subst(a, cfg), sfx |-> cfg.relay = "suffix"]
 (* "2" "3" "4" "5", sub) where sub is the envelope the queue program       *)
 (* received during this command (<<>> if none; else <<[s, rc]>>).          *)
 (***************************************************************************)
-MonInit == [open |-> FALSE, sender |-> [loc |-> "", dom |-> <<>>, noat |-> FALSE, long |-> FALSE, lit |-> FALSE], rcpts |-> <<>>]
+MonInit == [open |-> FALSE, sender |-> [loc |-> "", dom |-> <<>>, noat |-> FALSE, long |-> FALSE, lit |-> FALSE, edge |-> FALSE], rcpts |-> <<>>]
 MR(st, v) == [st |-> st, v |-> v]
 MonStep(st, c, reply, sub, cfg) ==
   IF c.verb # "DATA" /\ sub # <<>> THEN MR(st, "MessageSubmittedWithoutData")
   ELSE CASE c.verb \in {"HELO", "EHLO", "RSET"} ->
               IF reply = "2" THEN MR([st EXCEPT !.open = FALSE, !.rcpts = <<>>], "") ELSE MR(st, "")
          [] c.verb = "MAIL" ->
-              IF reply = "2" THEN MR([open |-> TRUE, sender |-> c.a, rcpts |-> <<>>], "") ELSE MR(st, "")
+              IF reply = "2" THEN MR([open |-> TRUE, sender |-> Subst(c.a, cfg), rcpts |-> <<>>], "") ELSE MR(st, "")   \* (the sender's IP literal is replaced too)
          [] c.verb = "RCPT" ->
               IF reply # "2" THEN MR(st, "")
               ELSE IF ~st.open THEN MR(st, "RecipientAcceptedOutsideTransaction")
               ELSE IF BadSender(st.sender, cfg) THEN MR(st, "RecipientAcceptedForBadSender")
-              ELSE IF c.a.long THEN MR(st, "OverlongRecipientAccepted")
+              ELSE IF TooLong(c.a, cfg) THEN MR(st, "OverlongRecipientAccepted")
               ELSE IF cfg.relay = "unset" /\ ~Allowed(Subst(c.a, cfg), cfg) THEN MR(st, "RecipientAcceptedAgainstRelayPolicy")
               ELSE MR([st EXCEPT !.rcpts = Append(@, Stored(c.a, cfg))], "")
          [] c.verb = "DATA" ->
@@ -79,10 +86,10 @@ PInit == [seenmail |-> FALSE, mailfrom |-> MonInit.sender, rcptto |-> <<>>, flag
 PR(ps, reply, sub) == [ps |-> ps, reply |-> reply, sub |-> sub]
 PStep(ps, c, cfg) ==
   CASE c.verb \in {"HELO", "EHLO", "RSET"} -> PR([ps EXCEPT !.seenmail = FALSE], "2", <<>>)
-    [] c.verb = "MAIL" -> IF c.a.long THEN PR(ps, "5", <<>>)                       \* err_syntax, nothing else changes
-                          ELSE PR([seenmail |-> TRUE, mailfrom |-> c.a, rcptto |-> <<>>, flagbarf |-> BadSender(c.a, cfg)], "2", <<>>)
+    [] c.verb = "MAIL" -> IF TooLong(c.a, cfg) THEN PR(ps, "5", <<>>)                       \* err_syntax, nothing else changes
+                          ELSE PR([seenmail |-> TRUE, mailfrom |-> Subst(c.a, cfg), rcptto |-> <<>>, flagbarf |-> BadSender(Subst(c.a, cfg), cfg)], "2", <<>>)
     [] c.verb = "RCPT" -> IF ~ps.seenmail THEN PR(ps, "5", <<>>)
-                          ELSE IF c.a.long THEN PR(ps, "5", <<>>)
+                          ELSE IF TooLong(c.a, cfg) THEN PR(ps, "5", <<>>)
                           ELSE IF ps.flagbarf THEN PR(ps, "5", <<>>)
                           ELSE IF cfg.relay # "unset" THEN PR([ps EXCEPT !.rcptto = Append(@, Stored(c.a, cfg))], "2", <<>>)
                           ELSE IF ~Allowed(Subst(c.a, cfg), cfg) THEN PR(ps, "5", <<>>)
